@@ -383,6 +383,20 @@ fn unverified_third_party_print() -> Option<String> {
     if a != b { Some(format!("block 2 (third party) prints {:?} through Biscuit and {:?} through UnverifiedBiscuit", a.trim(), b.trim())) } else { None }
 }
 
+/// C09: querying a date out of a token fact whose value does not fit a SystemTime
+fn query_date_overflow() -> Option<String> {
+    use std::time::SystemTime;
+    let root = KeyPair::new();
+    let t = Biscuit::builder().fact(biscuit_auth::builder::Fact::new("expires".to_string(), vec![biscuit_auth::builder::Term::Date(u64::MAX)])).unwrap().build(&root).unwrap();
+    let bytes = t.to_vec().unwrap();
+    let t2 = Biscuit::from(&bytes, root.public()).unwrap();
+    let mut a = AuthorizerBuilder::new().policy("allow if true").unwrap().build(&t2).unwrap();
+    match quiet(|| { let r: Result<Vec<(SystemTime,)>, _> = a.query("data($d) <- expires($d)"); r.map(|v| v.len()) }) {
+        Err(p) => Some(format!("token fact expires(Date(u64::MAX)): authorizer.query::<_, (SystemTime,)>(..) panics: {}", p)),
+        Ok(_) => None,
+    }
+}
+
 /// run `case` in a child process; report how it ended (a panic inside an extern "C" function aborts the process)
 fn in_child(case: &str) -> Result<String, String> {
     let exe = std::env::current_exe().unwrap();
@@ -525,6 +539,7 @@ fn main() {
         "snapshot_iteration_underflow" => snapshot_iteration_underflow(),
         "snapshot_iteration_overflow" => snapshot_iteration_overflow(),
         "closure_shadowing" => closure_shadowing(),
+        "query_date_overflow" => query_date_overflow(),
         "unverified_third_party_print" => unverified_third_party_print(),
         "snapshot_unknown_symbol_dump" => snapshot_unknown_symbol_dump(),
         "nested_unbound_parameter" => nested_unbound_parameter(),
